@@ -18,6 +18,8 @@ import (
 var (
 	ErrTransport = errors.New("scripted transport failure")
 	ErrRead      = errors.New("scripted body read failure")
+	// ErrReadWrapsEOF: what a transport reports when the peer closes the connection inside the body
+	ErrReadWrapsEOF = fmt.Errorf("connection closed by peer: %w", io.EOF)
 )
 
 // Outcome of one attempt.
@@ -89,6 +91,8 @@ func (b *Body) Read(p []byte) (int, error) {
 	switch b.O.End {
 	case "err":
 		return 0, ErrRead
+	case "errwrap":
+		return 0, ErrReadWrapsEOF
 	case "cancel":
 		b.Ctx.CancelNow()
 		return 0, b.Ctx.Err()
